@@ -295,6 +295,9 @@ pub const REG_VALUE_NAMES: &[&str] = &[
 /// A value nested `d` levels deep (arrays, one-entry maps, tags), well inside the CBOR parser's
 /// recursion limit of 256 wherever the generators place it.
 pub fn gen_deep_value(g: &mut Gen) -> Item {
+    if g.ratio(1, 3) {
+        return gen_bushy_value(g);
+    }
     let d = match g.below(3) {
         0 => 10 + g.below(30),
         1 => 40 + g.below(90),
@@ -310,6 +313,23 @@ pub fn gen_deep_value(g: &mut Gen) -> Item {
         };
     }
     v
+}
+
+/// A value holding many containers (around and beyond the parser's depth limit of 256 in *number*)
+/// at trivial depth: lists of empty arrays / maps / tags, lists of short lists, a wide map of arrays.
+pub fn gen_bushy_value(g: &mut Gen) -> Item {
+    let k = *g.pick(&[120usize, 254, 255, 256, 257, 300, 600]) + g.below(3);
+    let leaf = |i: usize| match i % 3 {
+        0 => Item::Array(vec![]),
+        1 => Item::Map(vec![]),
+        _ => Item::Tag(60000, Box::new(Item::Int(i as i128))),
+    };
+    match g.below(4) {
+        0 => Item::Array((0..k).map(leaf).collect()),
+        1 => Item::Array((0..k).map(|_| Item::Array(vec![])).collect()),
+        2 => Item::Array((0..k / 16 + 1).map(|j| Item::Array((0..16).map(|i| leaf(i + j)).collect())).collect()),
+        _ => Item::Map((0..k).map(|i| (Item::Int(i as i128), Item::Array(vec![Item::Int(i as i128)]))).collect()),
+    }
 }
 
 pub fn gen_param_value(g: &mut Gen) -> Item {
